@@ -794,7 +794,7 @@ pub fn run(ctx: &mut Ctx, mode: FMode) -> RunResult {
         }
         FMode::C18 => {
             transcript::check(ctx, &w.cli.c)?;
-            let up = w.cli.c.clock.node_time(ctx.now_ns) / 1_000_000;
+            let up = w.cli.c.clock.uptime_ms(ctx.now_ns);
             if up >= 1 << 24 {
                 ctx.probe("d.uptime_past_2^24ms");
             }
